@@ -71,8 +71,8 @@ func init() {
 	mutant("new-stream-error-in-loop", "no-stream-error-inside-decode-loop", "serverConn.go", "		// From here on it is a regular header field.\n		strm.regularSeen = true\n", "		// From here on it is a regular header field.\n		strm.regularSeen = true\n\n		if len(v) > 8192 {\n			return NewResetStreamError(EnhanceYourCalm, \"header value too long\")\n		}\n")
 	mutant("handler-report-only-on-success", "handler-panic-reports-back", "serverConn.go", "				ctx.Response.SetStatusCode(fasthttp.StatusInternalServerError)\n			}\n", "				ctx.Response.SetStatusCode(fasthttp.StatusInternalServerError)\n				return\n			}\n")
 	mutant("release-while-handler-runs", "abandoned-bookkeeping", "serverConn.go", "		if strm.handlerRunning {\n			strm.abandoned = true", "		if strm.handlerRunning && sc.debug {\n			strm.abandoned = true")
-	mutant("no-limit-before-newstream", "stream-creation-guards", "serverConn.go", "if openStreams >= int(sc.st.maxStreams) || wasClosing {", "if wasClosing {")
-	mutant("create-while-closing", "stream-creation-guards", "serverConn.go", "if openStreams >= int(sc.st.maxStreams) || wasClosing {", "if openStreams >= int(sc.st.maxStreams) {")
+	mutant("no-limit-before-newstream", "stream-creation-guards", "serverConn.go", "if (openStreams >= int(sc.st.maxStreams) || wasClosing) && fr.Type() == FrameHeaders", "if (wasClosing) && fr.Type() == FrameHeaders")
+	mutant("create-while-closing", "stream-creation-guards", "serverConn.go", "if (openStreams >= int(sc.st.maxStreams) || wasClosing) && fr.Type() == FrameHeaders", "if (openStreams >= int(sc.st.maxStreams)) && fr.Type() == FrameHeaders")
 	mutant("goaway-no-closing-state", "goaway-bookkeeping", "serverConn.go", "	atomic.StoreInt32((*int32)(&sc.state), int32(connStateClosed))\n\n	last := atomic.LoadUint32(&sc.lastID)", "	if strm != 0 {\n		atomic.StoreInt32((*int32)(&sc.state), int32(connStateClosed))\n	}\n\n	last := atomic.LoadUint32(&sc.lastID)")
 	mutant("body-unbounded", "buffer-append-bounded", "serverConn.go", "		if sc.maxRequestBodySize > 0 && strm.recvBody > sc.maxRequestBodySize {\n			return NewResetStreamError(EnhanceYourCalm, \"request body is too large\")\n		}\n\n		strm.ctx.Request.AppendBody(data)", "		strm.ctx.Request.AppendBody(data)")
 	mutant("ring-never-evicts", "closed-ring-bounded", "serverConn.go", "			delete(closedStrms, closedRing[closedOldest])\n", "")
@@ -620,8 +620,8 @@ func init() {
 	mutant("late-frames-after-our-reset-kill-the-connection", "late-frames-on-reset-streams", "serverConn.go", "						if resetSent {\n							if err := sc.discardFrame(fr); err != nil {", "						if resetSent && sc.debug {\n							if err := sc.discardFrame(fr); err != nil {")
 	mutant("late-frames-after-our-reset-dropped-unseen", "late-frames-on-reset-streams", "serverConn.go", "						if resetSent {\n							if err := sc.discardFrame(fr); err != nil {\n								sc.writeError(nil, err)\n								break loop\n							}\n\n							continue\n						}", "						if resetSent {\n							continue\n						}")
 	mutant("frames-on-a-stream-the-peer-closed-accepted", "late-frames-on-reset-streams", "serverConn.go", "						sc.writeGoAway(fr.Stream(), StreamClosedError, \"frame on closed stream\")\n\n						if canCloseAfterGoAway() {\n							break loop\n						}\n", "")
-	mutant("refused-stream-forgotten", "late-frames-on-reset-streams", "serverConn.go", "					if fr.Type() == FrameHeaders {\n						markClosed(fr.Stream(), true)\n					}\n", "")
-	mutant("refused-stream-remembered-as-closed-by-the-peer", "late-frames-on-reset-streams", "serverConn.go", "						markClosed(fr.Stream(), true)", "						markClosed(fr.Stream(), false)")
+	mutant("refused-stream-forgotten", "late-frames-on-reset-streams", "serverConn.go", "					// already on its way when the peer learns of the refusal.\n					markClosed(fr.Stream(), true)\n", "					// already on its way when the peer learns of the refusal.\n")
+	mutant("refused-stream-remembered-as-closed-by-the-peer", "late-frames-on-reset-streams", "serverConn.go", "					// already on its way when the peer learns of the refusal.\n					markClosed(fr.Stream(), true)", "					// already on its way when the peer learns of the refusal.\n					markClosed(fr.Stream(), false)")
 	mutant("refused-header-block-not-decoded", "late-frames-on-reset-streams", "serverConn.go", "					if err := sc.discardFrame(fr); err != nil {\n						sc.writeError(nil, err)\n						break loop\n					}\n\n					continue\n				}\n\n				if fr.Stream() < sc.lastID {", "					if fr.Type() == FrameData {\n						sc.consumeConnRecvWindow(fr.Len())\n					}\n\n					continue\n				}\n\n				if fr.Stream() < sc.lastID {")
 	mutant("reset-not-recorded", "late-frames-on-reset-streams", "serverConn.go", "	strm.resetSent = true\n\n	sc.writeReset(strm.ID(), code)", "	sc.writeReset(strm.ID(), code)")
 	mutant("timeout-reset-bypasses-the-record", "late-frames-on-reset-streams", "serverConn.go", "				sc.resetStream(strm, StreamCanceled)\n\n				// set the state to closed", "				sc.writeReset(strm.ID(), StreamCanceled)\n\n				// set the state to closed")
@@ -1048,4 +1048,8 @@ func init() {
 	mutant("empty-field-at-a-frame-end-taken-for-no-field", "no-phantom-field", "serverConn.go", "		if !sc.dec.fieldDecoded {\n			// The fragment ended in a dynamic table size update", "		if len(b) == 0 && hf.Empty() {\n			// The fragment ended in a dynamic table size update")
 	mutant("decoder-claims-a-field-after-a-size-update", "small-primitives", "hpack.go", "	hp.fieldDecoded = false\n\nloop:", "loop:")
 	mutant("data-padding-stored-in-the-data", "serialize-leaves-the-frame-alone", "data.go", "		fr.payload = http2utils.AddPadding(fr.payload)", "		data.b = http2utils.AddPadding(data.b)\n		fr.setPayload(data.b)")
+}
+
+func init() {
+	mutant("limit-refuses-any-frame-on-an-unknown-stream", "refusal-is-for-requests-in-order", "serverConn.go", "				if (openStreams >= int(sc.st.maxStreams) || wasClosing) && fr.Type() == FrameHeaders && fr.Stream() > sc.lastID {", "				if (openStreams >= int(sc.st.maxStreams) || wasClosing) && fr.Stream() > sc.lastID {")
 }
